@@ -49,6 +49,10 @@ psf_store_string (SF_PRIVATE *psf, int str_type, const char *str)
 			return SFE_STR_BAD_STRING ;
 		} ;
 
+	/* Refuse an unknown string type before the table is touched (type 0 marks a free slot). */
+	if (str_type < SF_STR_FIRST || str_type > SF_STR_LAST)
+		return SFE_STR_BAD_TYPE ;
+
 	/* Find the next free slot in table. */
 	for (k = 0 ; k < SF_MAX_STRINGS ; k++)
 	{	/* If we find a matching entry clear it. */
